@@ -106,6 +106,12 @@ impl LinePart {
     requires self.blocki_beg <= self.blocki_end
     ensures r as int == self.blocki_end - self.blocki_beg
 //@end
+//@cut fn path=src/data/line.rs impl=LinePart name=as_slice ret=r
+//@spec
+    // C12 / C02: what the printers write for a part is exactly its range of its block
+    requires lpok(*self)
+    ensures r@ == bytes(*self)
+//@end
 //@cut fn path=src/data/line.rs impl=LinePart name=block_boxptr ret=r
 //@spec
     requires lpok(*self)
